@@ -276,7 +276,8 @@ Fixpoint wd_puts (is_root : bool) (w : wnode) : list (list byte * list byte) :=
       let enc := encode H (erase w) in
       (match sv with
        | Some v => if mbh then [(pk ++ H v, v)] else []
-       | None => []
+       | None => if mbh then [(pk ++ H [], [])] else []   (* a stale MustBeHashed on a branch whose
+                                                             value was deleted: hash of the nil value *)
        end)
       ++ (if negb is_root && (length enc <? 32)%nat then []
           else (H enc, enc)
